@@ -109,4 +109,53 @@ def specFront (l : Spec) : Option (Ref × Val) := l.head?
 def specClear (l : Spec) (fr : Bool) : Spec × List Val :=
   ([], if fr then (l.map (·.2)).filter (· ≠ 0) else [])
 
+/-! ## Operation histories -/
+
+inductive Op where
+  | enq (v : Val)
+  | deq (fr : Bool)
+  | front
+  | clear (fr : Bool)
+  | dump
+  deriving Repr, DecidableEq
+
+inductive Res where
+  | node (r : Ref)
+  | front (r : Option (Ref × Val))
+  | freed (f : List Val)
+  | contents (size : Nat) (fwd : List (Ref × Val)) (bwd : List Ref)
+  deriving Repr, DecidableEq
+
+def step (s : Queue) : Op → Except Err (Queue × Res)
+  | .enq v => do let (s, r) ← enqueue s v; pure (s, .node r)
+  | .deq fr => do let (s, f) ← dequeue s fr; pure (s, .freed f)
+  | .front => do let r ← front s; pure (s, .front r)
+  | .clear fr => do let (s, f) ← clear s fr; pure (s, .freed f)
+  | .dump => do
+    let fw ← toList s
+    let bw ← toListRev s
+    pure (s, .contents s.size fw bw)
+
+/-- the reference side: the FIFO sequence and the number `k` of nodes allocated so far -/
+def specStep (l : Spec) (k : Nat) : Op → Spec × Nat × Res
+  | .enq v => (specEnqueue l (.node k) v, k + 1, .node (.node k))
+  | .deq fr => let (l', f) := specDequeue l fr; (l', k, .freed f)
+  | .front => (l, k, .front (specFront l))
+  | .clear fr => let (l', f) := specClear l fr; (l', k, .freed f)
+  | .dump => (l, k, .contents l.length l (l.map (·.1)).reverse)
+
+def run (s : Queue) : List Op → Except Err (Queue × List Res)
+  | [] => .ok (s, [])
+  | op :: ops => do
+    let (s1, r) ← step s op
+    let (s2, rs) ← run s1 ops
+    pure (s2, r :: rs)
+
+def specRun (l : Spec) (k : Nat) : List Op → Spec × Nat × List Res
+  | [] => (l, k, [])
+  | op :: ops =>
+    let (l1, k1, r) := specStep l k op
+    let (l2, k2, rs) := specRun l1 k1 ops
+    (l2, k2, r :: rs)
+
 end MgModel.C11.Q
